@@ -7,4 +7,6 @@ VIEW View
 INVARIANT ContiguousOnly
 INVARIANT RangeFaithful
 INVARIANT RoundTrip
+PROPERTY RangeFaithfulStep
+PROPERTY RoundTripStep
 CHECK_DEADLOCK FALSE
